@@ -15,11 +15,16 @@ CLAIMS = {
    text="Partial proof (Lean 4): sheet_names_unique — for EVERY list of labels for which allocation succeeds the exported sheet names "
         "are pairwise distinct, at most 31 characters and free of : / ? * \\ [ ] (induction over the labels; the suffix search "
         "is bounded by 998 attempts and the facts about the 998 suffixes are a kernel-decided table); target_returns_last_loaded — "
-        "for every load/target history the wrapper returns the result of the problem loaded last (invariant over the history); "
-        "repeat_target_cached. Models tied to the code on 1500 label lists and 40 histories per run. Channel equality (dict, "
-        "validated model, value-with-unit, wrapper, JSON file, CSV directory, CSV pair, workbook) is NOT a theorem (the readers are "
-        "pandas/pydantic code): one logical problem is written through all eight channels and every record compared, 25 problems "
-        "per quick run.",
+        "for every history of load/target calls from any sources (validated model, file path, CSV pair) the wrapper returns the "
+        "result of the problem loaded last, analysed under the project name of THAT source (file stem for a path, the default "
+        "otherwise): a function of the last load alone (invariant over the history); target_as_fresh (whatever happened before, "
+        "load + any number of target calls gives what a fresh wrapper gives); repeat_target_cached; legacy_project_name_leaks "
+        "(kernel-decided witness that the code before the project-name fix: commit analysed a model loaded after a file under the "
+        "file's name). Models tied to the code on 1500 label lists and 40 histories per run (sources mixed; which problem and "
+        "which project name every target() reports). Channel equality (dict, validated model, value-with-unit, wrapper, JSON file, "
+        "CSV directory, CSV pair, workbook, a dictionary of already validated records targeted repeatedly and through the "
+        "wrapper, one model object targeted twice) is NOT a theorem (the readers are pandas/pydantic code): one logical problem "
+        "is put through all thirteen channels and every record compared, 25 problems per quick run.",
    technique="Lean 4 proof (sheet names, wrapper cache) + relational testing across input channels + correspondence",
    design="§6 C16"),
  "C10": dict(
@@ -252,9 +257,15 @@ CLAIMS = {
         "table), every zero outside the zero runs touching the ends lies between them, and the threshold clauses hold "
         "(pinch_rows_spec, zeros_between_pinches, hot_not_colder_than_cold); absent_iff characterises exactly when a pinch is "
         "reported absent, and pinch_allzero_witness proves the full 'absent only when no zero' statement false of the code "
-        "(known finding C06-all-zero, pinned by a test). Correspondence on 3000+ random columns per run; the service-level oracle "
+        "(known finding C06-all-zero, pinned by a test). Composed with the cascade (C01/C05): "
+        "pinch_is_where_cascade_is_pinched - for ANY streams on any compatible grid, reading the pinch off the residual column "
+        "of the cascade model as the code does gives two grid temperatures, hot >= cold, at each of which the net heat deficit "
+        "is within tol of its maximum Qh over ALL temperatures (the residual heat flow through a reported pinch is zero); "
+        "exact_pinches_lie_between - every grid temperature where the deficit attains Qh exactly and that has non-pinched rows "
+        "above and below lies between the two reported temperatures (no pinch is missed). "
+        "Correspondence on 3000+ random columns per run; the service-level oracle "
         "compares the reported pinch of every zone of 280+ random problems with the zeros of an exact Fraction cascade.",
-   technique="Lean 4 proof of the decision logic over lists + correspondence testing + exact-cascade oracle on service output",
+   technique="Lean 4 proof of the decision logic over lists, composed with the cascade closed form (pinch = maximiser of the heat deficit) + correspondence testing + exact-cascade oracle on service output",
    design="§6 C06"),
  "C18": dict(
    text="Partial proof (Lean 4). The thermodynamic states come from CoolProp (C++ property library, not modelled): the second-law, "
